@@ -119,6 +119,15 @@ TABLE = {
             v.push(a);
         }
         VecArray(v)"""),
+    "kahn-mark-on-entry": [("src/strict/graph.rs",
+                            "    let mut frontier: K::Index = zero(&indegree);\n",
+                            "    let mut frontier: K::Index = zero(&indegree);\n    unvisited.scatter_assign_constant(&frontier, K::I::zero());\n"),
+                           ("src/strict/graph.rs",
+                            "        // Mark nodes in the current frontier as visited\n        // unvisited[frontier] = 0;\n        unvisited.scatter_assign_constant(&frontier, K::I::zero());\n",
+                            ""),
+                           ("src/strict/graph.rs",
+                            "        // Increment depth\n        depth = depth + K::I::one();",
+                            "        unvisited.scatter_assign_constant(&frontier, K::I::zero());\n        // Increment depth\n        depth = depth + K::I::one();")],
     "compose-guard-not-eq": ("src/strict/open_hypergraph/arrow.rs",
                              "if self.target() != other.source() {",
                              "if !(self.target() == other.source()) {"),
